@@ -763,3 +763,73 @@ S('IDEM_ior_self_shortcut', ['C16', 'C03'], 'bitarray_.py', "        bs = self._
   "        if bs is self:\n            return self\n        bs = self._create_from_bitstype(bs)\n        self._bitstore |= bs._bitstore\n        return self")
 V('G5_insert_append_fast_path', ['C12', 'C03'], 'bitstream.py', "        self._insert(bs, pos)\n        self._pos = pos + len(bs)",
   "        if pos == len(self):\n            self._addright(bs)\n        else:\n            self._insert(bs, pos)\n        self._pos = pos + len(bs)", ['G5'])
+
+
+def rename_private_params(tree_by_mod, suffix='_p'):
+    """Rename the parameters (except self/cls) of private functions that are defined exactly once in the package; keyword
+    arguments at their call sites follow."""
+    defs = {}
+    for mod, tree in tree_by_mod.items():
+        for x in ast.walk(tree):
+            if isinstance(x, (ast.FunctionDef,)):
+                defs.setdefault(x.name, []).append(x)
+    targets = {n: d[0] for n, d in defs.items() if len(d) == 1 and n.startswith('_') and not (n.startswith('__') and n.endswith('__'))
+               and not n.startswith(('_set', '_get', '_read'))}      # registry functions: their parameter names are looked at by reflection
+    # a function handed around as a value may be called with keywords through the alias: leave it alone
+    as_value = set()
+    for mod, tree in tree_by_mod.items():
+        callfuncs = {id(x.func) for x in ast.walk(tree) if isinstance(x, ast.Call)}
+        for x in ast.walk(tree):
+            nm = x.attr if isinstance(x, ast.Attribute) else x.id if isinstance(x, ast.Name) else None
+            if nm in targets and id(x) not in callfuncs and not (isinstance(x, ast.Name) and isinstance(x.ctx, ast.Store)):
+                as_value.add(nm)
+    ren = {}
+    n_changed = 0
+    for name, fn in targets.items():
+        if name in as_value:
+            continue
+        a = fn.args
+        if a.vararg or a.kwarg:
+            continue
+        if any(isinstance(d, ast.Name) and d.id in ('property',) or 'setter' in ast.unparse(d) or 'overload' in ast.unparse(d) for d in fn.decorator_list):
+            continue
+        params = [p.arg for p in a.posonlyargs + a.args + a.kwonlyargs if p.arg not in ('self', 'cls')]
+        if not params:
+            continue
+        # nested functions/lambdas that rebind the same names would be confused: skip those
+        if any(isinstance(y, (ast.FunctionDef, ast.Lambda)) and y is not fn for y in ast.walk(fn)):
+            continue
+        mp = {p: p + suffix for p in params}
+        for p in a.posonlyargs + a.args + a.kwonlyargs:
+            if p.arg in mp:
+                p.arg = mp[p.arg]
+        for y in ast.walk(fn):
+            if isinstance(y, ast.Name) and y.id in mp:
+                y.id = mp[y.id]
+                n_changed += 1
+        ren[name] = mp
+    for mod, tree in tree_by_mod.items():
+        for x in ast.walk(tree):
+            if isinstance(x, ast.Call):
+                nm = x.func.attr if isinstance(x.func, ast.Attribute) else x.func.id if isinstance(x.func, ast.Name) else None
+                if nm in ren:
+                    for k in x.keywords:
+                        if k.arg in ren[nm]:
+                            k.arg = ren[nm][k.arg]
+                # functools.partial(fn, kw=...) style
+                if nm == 'partial' and x.args and isinstance(x.args[0], (ast.Attribute, ast.Name)):
+                    tgt = x.args[0].attr if isinstance(x.args[0], ast.Attribute) else x.args[0].id
+                    if tgt in ren:
+                        for k in x.keywords:
+                            if k.arg in ren[tgt]:
+                                k.arg = ren[tgt][k.arg]
+    return n_changed
+
+
+def _pkg_rename_private_params(srcs):
+    trees = {fn: ast.parse(t) for fn, t in srcs.items()}
+    n = rename_private_params(trees)
+    return {fn: ast.unparse(t) + '\n' for fn, t in trees.items()} if n else None
+
+
+VARIANTS.append(dict(id='PKG_S_rename_private_parameters', props=ALL + ['C05'], file='*', expect=[], kind='silent', where='', pkg_all_fn=_pkg_rename_private_params))
